@@ -38,6 +38,9 @@ func generate(prop string, seed uint64, i int) *Scenario {
 	if prop == "C05" && i%16 == 5 {
 		return genPlain2(rs, faulty) // a source that hands out values of the plain config type
 	}
+	if prop == "C09" && i%16 == 9 {
+		return genEzC09(rs, faulty) // the ez entry points: delayed verification is switched on before they return
+	}
 	if prop == "C09" && i%16 == 7 {
 		return genPlain(rs, faulty) // the same options with a config type that has no Verify method
 	}
